@@ -721,6 +721,23 @@ func (x *LabelExec) Apply(op drv.Op) (handled bool, v *drv.Violation, err error)
 		}
 		return true, nil, nil
 	case "nextlabel":
+		if r.IntN(8) == 0 {
+			// a count of 0 or one that would wrap the 64-bit counter: must be refused, never move the counter
+			bad := pick(r, []string{"0", "18446744073709551615", "18446744073709551000", "9223372036854775808"})
+			st, body, e := x.post(fmt.Sprintf("%s/nextlabel/%s", x.base(op.V), bad), nil)
+			if e != nil {
+				return true, nil, e
+			}
+			if st == 200 && (bad == "0" || bad == "18446744073709551615") { // the other two are enormous but legal
+				return true, &drv.Violation{Prop: "C12", Oracle: "label-counter-wrap", Sig: "nextlabel accepts a count of zero or one that wraps the label counter",
+					Detail: fmt.Sprintf("POST nextlabel/%s -> 200 %s", bad, trunc(body))}, nil
+			}
+			if st == 200 {
+				x.Repositioned = true // a legal but enormous jump: later labels are above it or refused
+			}
+			w.Stats.Probe("label-nextlabel-extreme-count")
+			return true, nil, nil
+		}
 		n := 1 + int(op.N%3)
 		st, body, e := x.post(fmt.Sprintf("%s/nextlabel/%d", x.base(op.V), n), nil)
 		if e != nil {
